@@ -59,19 +59,26 @@ static CV check20(const CliCase &c) {
   if ((r.status == 0) != want_ok) return bad("exit-status", "exit status " + std::to_string(r.status) + " ; library assembly rc " + std::to_string(want_rc) + (c.outkind == 3 ? ", output path not writable" : ""));
   if (want_rc != 0) return v;   // nothing more to compare for a failing program
   // parse stdout: hex lines ("xx " per byte, optional trailing '|'), count line, "the value is" line
+  std::vector<std::pair<size_t, bool>> rows;   // per printed hex row: number of bytes, ends with '|'
   std::vector<uint8_t> dumped; long count_seen = -1; bool have_value = false; uint64_t value = 0;
   { size_t p = 0; while (p <= r.out.size()) { size_t e = r.out.find('\n', p); if (e == std::string::npos) e = r.out.size(); std::string line = r.out.substr(p, e - p); p = e + 1;
       if (line.empty()) continue;
       if (line.compare(0, 15, "the value is 0x") == 0) { have_value = true; value = strtoull(line.c_str() + 15, nullptr, 16); continue; }
       bool ishex = line.size() >= 3; size_t q = 0; std::vector<uint8_t> bytes;
       while (ishex && q < line.size()) { if (line[q] == '|' && q + 1 == line.size()) { q++; break; } if (q + 2 < line.size() + 0 && isxdigit((unsigned char)line[q]) && isxdigit((unsigned char)line[q + 1]) && q + 2 < line.size() + 1 && line[q + 2] == ' ') { bytes.push_back((uint8_t)strtol(line.substr(q, 2).c_str(), nullptr, 16)); q += 3; } else ishex = false; }
-      if (ishex) { dumped.insert(dumped.end(), bytes.begin(), bytes.end()); continue; }
+      if (ishex) { dumped.insert(dumped.end(), bytes.begin(), bytes.end()); rows.push_back({bytes.size(), !line.empty() && line.back() == '|'}); continue; }
       if (isdigit((unsigned char)line[0])) { count_seen = atol(line.c_str()); continue; }
     } }
   if (c.p) {
     bool cumulative = c.from_stdin && c.chunk && !c.brk;   // the fitting dump is printed after every line of stdin: compare the final block
     if (cumulative) { if (dumped.size() < want.size() || !std::equal(want.begin(), want.end(), dumped.end() - want.size())) return bad("print", "-p: the last dumped block does not equal the code (" + std::to_string(dumped.size()) + " bytes printed, code " + std::to_string(want.size()) + ")"); }
     else if (dumped != want) return bad("print", "-p printed " + std::to_string(dumped.size()) + " bytes " + x86::hex(dumped.data(), std::min<size_t>(dumped.size(), 24)) + " ; the library produces " + std::to_string(want.size()) + " bytes " + x86::hex(want.data(), std::min<size_t>(want.size(), 24)));
+    // "If -c is given, the chunks are delimited by '|' and each chunk is on one line" (tools/README.md): with FILE input every row but the last
+    // holds exactly one chunk and ends with the bar, the last one holds the rest
+    if (c.chunk >= 2 && !c.from_stdin && !c.brk) for (size_t i = 0; i < rows.size(); i++) {
+      bool last = i + 1 == rows.size();
+      if ((!last && (rows[i].first != (size_t)c.chunk || !rows[i].second)) || (last && (rows[i].first > (size_t)c.chunk || (rows[i].second && rows[i].first != (size_t)c.chunk))))
+        return bad("print-rows", "-p -c " + std::to_string(c.chunk) + ": row " + std::to_string(i + 1) + " of " + std::to_string(rows.size()) + " holds " + std::to_string(rows[i].first) + " bytes" + (rows[i].second ? " and ends with '|'" : " and has no '|'") + " ; every row but the last is one chunk followed by '|'"); }
   } else if (!dumped.empty()) return bad("print", "hex output without -p");
   if (c.brk) { if (count_seen != want_count) return bad("count", "-b printed " + std::to_string(count_seen) + ", the library counts " + std::to_string(want_count)); }
   if (c.outkind == 1 || c.outkind == 2) { std::string got; std::string path = c.outkind == 1 ? praw : oname + ".bin"; if (!hz::read_file(path, got)) return bad("binary-output", "output file missing"); if (got.size() != want.size() || memcmp(got.data(), want.data(), want.size())) return bad("binary-output", "output file holds " + std::to_string(got.size()) + " bytes, the library produces " + std::to_string(want.size())); }
@@ -92,12 +99,14 @@ void prop_c20(hz::Ctx &ctx) {
     // raw lines of 100 and more characters (long comments, wide indentation): stdin and FILE must still agree
     if (r.below(4) == 0) { size_t at = r.below(c.lines.size()); if (progkind != 2 || at + 2 < c.lines.size() || true) { int kind = (int)r.below(3); std::string &l = c.lines[at]; static const int LEN[] = {80, 150, 230, 250, 256, 300, 500, 1000, 4090, 9000}; size_t len = (size_t)LEN[r.below(10)] + r.below(40); if (kind == 0) l += " ; " + std::string(len, 'c'); else if (kind == 1) l = std::string(len, ' ') + l; else l += std::string(len, ' '); } }
     // lines that emit nothing (comment in column 0, indented comment, blank, label) at random positions
-    if (r.below(3) == 0) { int k = 1 + (int)r.below(3); static const char *NOISE[] = {"; comment", ";", "  ; indented comment", "", "label:", "   ", ";;; x"}; for (int j = 0; j < k; j++) c.lines.insert(c.lines.begin() + r.below(c.lines.size() + (progkind == 2 ? -1 : 1)), NOISE[r.below(7)]); }
+    if (r.below(3) == 0) { int k = 1 + (int)r.below(3); static const char *NOISE[] = {"; comment", ";", "  ; indented comment", "", "label:", "   ", ";;; x", "%define foo 1", "%macro m 0", "% x", "section .text", "global f", "\t%endmacro"}; for (int j = 0; j < k; j++) c.lines.insert(c.lines.begin() + r.below(c.lines.size() + (progkind == 2 ? -1 : 1)), NOISE[r.below(13)]); }
     c.longname = r.below(6) == 0 ? (r.below(3) == 0 ? 240 + (int)r.below(30) : r.below(2) ? 80 + (int)r.below(60) : 300 + (int)r.below(500)) : 0;
     c.sep = r.below(5) == 0 ? 1 + (int)r.below(2) : 0; c.rkind = r.below(2) ? (int)r.below(7) : 0; if (c.longname == 0 && r.below(8) == 0) c.longname = -1 - (int)r.below(12);
-    c.p = outs & 1; c.r = progkind == 2 && (outs & 2); c.outkind = (outs >> 2) % 4; static const int CH[] = {0, 0, 0, 2, 3, 7, 16, 64}; c.chunk = CH[chunksel % 8]; static const int BK[] = {0, 0, 0, 2, 5, 16, 32, 4096}; c.brk = BK[brksel % 8];
+    c.p = outs & 1; c.r = progkind == 2 && (outs & 2); c.outkind = (outs >> 2) % 4; static const int CH[] = {0, 0, 0, 2, 3, 7, 16, 64, 256, 300}; c.chunk = CH[chunksel % 10];
+    // chunk sizes of 256 and more need programs of several chunks: the (non-executed) program is repeated until it has some 1200 lines
+    if (c.chunk >= 256 && progkind != 2 && !c.lines.empty()) { std::vector<std::string> one = c.lines; while (c.lines.size() < 1200 && c.lines.size() + one.size() <= 1400) c.lines.insert(c.lines.end(), one.begin(), one.end()); } static const int BK[] = {0, 0, 0, 2, 5, 16, 32, 4096}; c.brk = BK[brksel % 8];
     c.from_stdin = from_stdin; c.final_newline = nl; return c; },
-    rc::gen::container<std::vector<int>>(range(0, 15)), rc::gen::container<std::vector<int>>(range(0, 1 << 20)), rc::gen::weightedElement<int>({{5, 0}, {2, 1}, {4, 2}}), range(0, 16), range(0, 8), range(0, 8), rc::gen::arbitrary<bool>(), range(0, 1 << 30), rc::gen::arbitrary<bool>());
+    rc::gen::container<std::vector<int>>(range(0, 15)), rc::gen::container<std::vector<int>>(range(0, 1 << 20)), rc::gen::weightedElement<int>({{5, 0}, {2, 1}, {4, 2}}), range(0, 16), range(0, 10), range(0, 8), rc::gen::arbitrary<bool>(), range(0, 1 << 30), rc::gen::arbitrary<bool>());
   rc_rounds(ctx, "C20-cli", ctx.thorough() ? 600000 : 80000, 40, [&]() {
     CliCase c = *gen_case; std::string id = ser20(c); if (!ctx.begin(id, cmdline(c))) return;
     int groups = (c.modeflags.empty() ? 0 : 1) + (c.p || c.outkind ? 1 : 0) + (c.chunk || c.brk ? 1 : 0) + (c.r ? 1 : 0);
